@@ -14,6 +14,8 @@ from .c05 import MC_CFG, behaviours
 
 
 class Schedules(Part):
+    steered_total = 0
+    steered_realised = 0
     name = "schedules"
     trace_module = "JobTrace"
     coverage_strict = False
@@ -30,12 +32,13 @@ class Schedules(Part):
     def cases(self, ctx):
         rng = ctx.rng
         cases = []
-        plan = ((2, 2, None), (3, 2, None), (3, 3, 400), (4, 2, 300)) if ctx.quick else \
+        plan = ((2, 2, None), (3, 2, 150), (3, 3, 120), (4, 2, 80)) if ctx.quick else \
                ((2, 2, None), (3, 2, None), (3, 3, None), (4, 2, None), (4, 3, 6000), (5, 2, 4000))
         for nd, nw, cap in plan:
             seen = set()
             for b in behaviours(ctx, nd, nw, "", "parallel", 1, "JobGen-sched-%dx%d" % (nd, nw)):
-                schedule = tuple((("call" if h["a"] == "ok" else "sync"), h["d"]) for h in b["hist"] if h["a"] in ("ok", "sync"))
+                schedule = tuple(({"ok": "call", "sync": "sync", "begin": "begin"}[h["a"]], h["d"]) for h in b["hist"]
+                                 if h["a"] in ("ok", "sync", "begin"))
                 key = (tuple(b["pre"]), schedule)
                 if key in seen:
                     continue
@@ -79,6 +82,7 @@ class Schedules(Part):
         gates = sched.Gates([tuple(s) for s in case["schedule"]], todo, workers)
         rec = jobrec.Rec(dim=2, m=rng.randint(1, 2), mode="parallel", workers=workers, gate=gates.gate, db=db)
         rec.on_synced = gates.done
+        rec.gate_begin = True
         vectors = [[round(rng.uniform(-5, 5), 6) for _ in range(2)] for _ in range(n)]
         rec.new_batch(vectors, pre=pre)
         th = threading.Thread(target=gates.controller, daemon=True)
@@ -92,6 +96,8 @@ class Schedules(Part):
             raise exc
         rec.end_event(exc)
         case["realised"] = gates.realised
+        Schedules.steered_total += 1
+        Schedules.steered_realised += 1 if gates.realised else 0
         return rec.events
 
     @staticmethod
@@ -180,8 +186,17 @@ class Schedules(Part):
 
 
 def run(ctx, replay=None):
+    part = Schedules()
+    orig = part.run_case
+
+    def counting(c, case):
+        tr = orig(c, case)
+        ctx.notes[:] = ["steered schedules: %d run, %d realised exactly as emitted by TLC (the others were completed in arrival order)"
+                        % (Schedules.steered_total, Schedules.steered_realised)]
+        return tr
+    part.run_case = counting
     return core.run_property(
-        ctx, [Schedules()], level="model_checking",
+        ctx, [part], level="model_checking",
         assumptions=["interleavings are controlled at objective-call and store-synchronisation granularity (the property's granularity) through "
                      "gates in the user objective and around data_store.sync_individual; finer interleavings inside Job.evaluate are exercised only "
                      "by the free-running stress runs",
